@@ -131,8 +131,17 @@ class C09(CheckBase):
              'lat_inc': 60.0, 'long_inc': 60.0, 'nrow': 31, 'ncol': 31}]}
         data, _ = ntv2_writer.build(spec, lambda k, r, cc: (0.25 * r - 0.125 * cc + k, 0.5 * cc + 0.0625 * r * cc, 0.01, 0.02))
         self.fs.put('/sim/std.gsb', data)
+        # a second, different grid file (same sub-grid names, other spacing and values): callers may hold
+        # several grid objects at once
+        spec2 = {'subgrids': [
+            {'name': 'PARENT', 'parent': 'NONE', 's_lat': -38 * 3600.0, 'e_long': -146 * 3600.0,
+             'lat_inc': 600.0, 'long_inc': 600.0, 'nrow': 13, 'ncol': 13},
+            {'name': 'THIRD', 'parent': 'NONE', 's_lat': -30 * 3600.0, 'e_long': -120 * 3600.0,
+             'lat_inc': 300.0, 'long_inc': 300.0, 'nrow': 5, 'ncol': 5}]}
+        data2, _ = ntv2_writer.build(spec2, lambda k, r, cc: (2.5 - 0.5 * r + 0.25 * cc, 1.0 + 0.125 * r * cc, 0.03, 0.04))
+        self.fs.put('/sim/alt.gsb', data2)
         env.ntv2reader.open = self.fs.open
-        env.grid_factory = lambda: env.ntv2reader.read_ntv2_file('/sim/std.gsb')
+        env.grid_factory = lambda which='std': env.ntv2reader.read_ntv2_file('/sim/%s.gsb' % which)
         # write barrier
         self.barrier_hits = []
         self.barrier_on = False
